@@ -265,9 +265,15 @@ func GetBase(fh *elf.FileHeader, loadSegment *elf.ProgHeader, stextOffset *uint6
 			return start - offset, nil
 		}
 		// Kernels compiled as PIE can be ET_DYN as well. Use heuristic, similar to
-		// the ET_EXEC case above.
-		if base, match := kernelBase(loadSegment, stextOffset, start, limit, offset); match {
-			return base, nil
+		// the ET_EXEC case above, but as there only outside the user-mode half
+		// of the address space: the kernel heuristics must not capture a
+		// user-mode object whose mapping happens to satisfy one of them (a
+		// prelinked library whose text mapping was split has
+		// start-offset == Vaddr, and the base is then not the mapping offset).
+		if !(stextOffset == nil && start > 0 && start < 0x8000000000000000) {
+			if base, match := kernelBase(loadSegment, stextOffset, start, limit, offset); match {
+				return base, nil
+			}
 		}
 		// The program header, if not nil, indicates the offset in the file where
 		// the executable segment is located (loadSegment.Off), and the base virtual
